@@ -47,6 +47,21 @@ def _local_simplification(a: ast.Lambda) -> ast.Lambda:
     return r
 
 
+def _same_value(a: Any, b: Any) -> bool:
+    """Equal, and of the same types all the way down (1, True and 1.0 compare equal but are not
+    the same value - nor are `[1]` and `[True]`)."""
+    if type(a) is not type(b) or a != b:
+        return False
+    if isinstance(a, (list, tuple)):
+        return all(_same_value(x, y) for x, y in zip(a, b))
+    if isinstance(a, dict):
+        return all(
+            any(type(k) is type(k_b) and k == k_b and _same_value(v, v_b) for k_b, v_b in b.items())
+            for k, v in a.items()
+        )
+    return True
+
+
 class ObjectStream(Generic[T]):
     r"""
     The objects can be events, jets, electrons, or just floats, or arrays of floats.
@@ -227,8 +242,7 @@ class ObjectStream(Generic[T]):
             add_md = False
             if found_md is None:
                 add_md = True
-            elif found_md != v or type(found_md) is not type(v):
-                # (1, True and 1.0 compare equal but are not the same value)
+            elif not _same_value(found_md, v):
                 logging.getLogger(__name__).info(
                     f'Overwriting metadata "{k}" from its old value of "{found_md}" to "{v}"'
                 )
